@@ -188,6 +188,8 @@ def o4(W, ob):
                          'disconnect_player can disconnect an already disconnected player: ' + dnf_str(g)[:200], where(dp, t.line))
 
 
+from . import helpers
+
 OBLIGATIONS = [
     ('C07.O1', 'timeout guards', 'NetworkInterrupted under last_recv_time + disconnect_notify_start < now, Disconnected under '
      'last_recv_time + disconnect_timeout < now, both while Running; last_recv_time written only by handle_message.', o1),
@@ -200,4 +202,5 @@ OBLIGATIONS = [
     ('C07.O5', 'same cut-off predicate everywhere (= C03.O2)', 'see C03.O2', c03.o2),
     ('C07.O6', 'the cut-off is final (= C03.O4)', 'inputs of a player already marked disconnected are ignored (see C03.O4)', c03.o4),
     ('C07.O7', 'the pending disconnect frame takes part in the rollback (= C01.O1, C01.O7)', 'see C01.O7', c01.o7),
+    ('C07.H', 'helpers the rules above rely on', 'the bodies of the helpers named by this property\'s rules compute what the rules assume (endpoint_getters, protocol_state_tests); see rules/helpers.py', helpers.bundle('endpoint_getters', 'protocol_state_tests')),
 ]
